@@ -51,6 +51,7 @@ def main():
         # 16 workers x 16 BLAS threads thrash; the numba kernels keep their own thread control
         env["OPENBLAS_NUM_THREADS"] = "1"
         env["MKL_NUM_THREADS"] = "1"
+        env.setdefault("OMP_WAIT_POLICY", "PASSIVE")  # oversubscribed OpenMP threads must not spin
         env["PYTHONPATH"] = REPO + ":" + HERE + (":" + env["PYTHONPATH"] if env.get("PYTHONPATH") else "")
         os.execve(sys.executable, [sys.executable] + sys.argv, env)
     os.environ.setdefault("NUMBA_NUM_THREADS", "16")
